@@ -14,7 +14,26 @@ pub enum Derived {
     Done(Capture),
 }
 
+/// Progress bookkeeping for the derive watchdog (vgraph): number of derive calls started and the
+/// source currently being derived.
+pub static DERIVE_CALLS: std::sync::atomic::AtomicU64 = std::sync::atomic::AtomicU64::new(0);
+/// number of derive calls currently running (threads of C16 may overlap)
+pub static DERIVE_IN_FLIGHT: std::sync::atomic::AtomicU64 = std::sync::atomic::AtomicU64::new(0);
+pub static DERIVE_CURRENT: std::sync::Mutex<Option<String>> = std::sync::Mutex::new(None);
+
 pub fn derive_src(src: &str) -> Result<Derived, String> {
+    DERIVE_CALLS.fetch_add(1, std::sync::atomic::Ordering::Relaxed);
+    if let Ok(mut c) = DERIVE_CURRENT.try_lock() {
+        *c = Some(src.to_string());
+    }
+    struct InFlight;
+    impl Drop for InFlight {
+        fn drop(&mut self) {
+            DERIVE_IN_FLIGHT.fetch_sub(1, std::sync::atomic::Ordering::Relaxed);
+        }
+    }
+    DERIVE_IN_FLIGHT.fetch_add(1, std::sync::atomic::Ordering::Relaxed);
+    let _guard = InFlight;
     let ts: TokenStream = src.parse().map_err(|e| format!("harness rendered unparsable Rust: {e}"))?;
     match catch_unwind(AssertUnwindSafe(|| capture(ts))) {
         Ok(c) => Ok(Derived::Done(c)),
